@@ -61,6 +61,19 @@ Proof.
   intros Hr Hlen Ha Hb Hj Htot Hin Hin0. destruct (reach_good_bounded s Hr Hlen) as (K & HK & Hg & _).
   exact (inv_prod_exact ops inr L tw Kmax K s a b j res Tabs Hg HK Ha Hb Hj Htot Hin Hin0).
 Qed.
+
+(** the same route with the inverse transform on ANY other reachable object [s'] (no size bound on [s']) *)
+Lemma main_inv_prod_x (s s' : st (F := F)) a b j res : reach ops tw s -> length (R s) <= 2 ^ Kmax ->
+  reach ops tw s' ->
+  a <> [] -> b <> [] -> S j <= Kmax -> length a + length b - 1 <= 2 ^ S j ->
+  (forall l, l < length a + length b - 1 -> inr (conv_coef a b l)) -> inr 0%Z ->
+  snd (inv_prod_x ops tw s s' a b (2 ^ S j) res) =
+  zip_acc Z.add res (conv a b ++ repeat 0%Z (2 ^ S j - (length a + length b - 1))).
+Proof.
+  intros Hr Hlen Hr' Ha Hb Hj Htot Hin Hin0.
+  rewrite (inv_prod_x_as_into ops tw s s' a b (S j) res Hr Hr').
+  now apply main_inv_prod.
+Qed.
 End Main.
 
 Lemma exact_algebra_all : forall (F : Type) (ops : Ops F) (inr : Z -> Prop) (tw : nat -> nat -> F * F) (Kmax : nat),
@@ -80,12 +93,19 @@ Lemma exact_algebra_all : forall (F : Type) (ops : Ops F) (inr : Z -> Prop) (tw 
   (forall a b j res, a <> [] -> b <> [] -> S j <= Kmax -> length a + length b - 1 <= 2 ^ S j ->
      (forall l, l < length a + length b - 1 -> inr (conv_coef a b l)) -> inr 0%Z ->
      snd (inv_prod_into ops tw s a b (2 ^ S j) res) =
+     zip_acc Z.add res (conv a b ++ repeat 0%Z (2 ^ S j - (length a + length b - 1)))) /\
+  (forall (s' : st (F := F)) a b j res, reach ops tw s' -> a <> [] -> b <> [] -> S j <= Kmax ->
+     length a + length b - 1 <= 2 ^ S j ->
+     (forall l, l < length a + length b - 1 -> inr (conv_coef a b l)) -> inr 0%Z ->
+     snd (inv_prod_x ops tw s s' a b (2 ^ S j) res) =
      zip_acc Z.add res (conv a b ++ repeat 0%Z (2 ^ S j - (length a + length b - 1)))).
 Proof.
-  intros F ops inr tw Kmax L Tabs s Hr Hlen. split; [|split; [|split]].
+  intros F ops inr tw Kmax L Tabs s Hr Hlen. split; [|split; [|split; [|split]]].
   - intros m v k Hm Hv Hk. exact (main_dft ops inr tw Kmax L Tabs s m v k Hr Hlen Hm Hv Hk).
   - intros s' m v Hr' Hlen' Hm Hv. exact (main_roundtrip ops inr tw Kmax L Tabs s s' m v Hr Hlen Hr' Hlen' Hm Hv).
   - intros a b Ha Hb Hn Hin. exact (main_multiply ops inr tw Kmax L Tabs s a b Hr Hlen Ha Hb Hn Hin).
   - intros a b j res Ha Hb Hj Htot Hin Hin0.
     exact (main_inv_prod ops inr tw Kmax L Tabs s a b j res Hr Hlen Ha Hb Hj Htot Hin Hin0).
+  - intros s' a b j res Hr' Ha Hb Hj Htot Hin Hin0.
+    exact (main_inv_prod_x ops inr tw Kmax L Tabs s s' a b j res Hr Hlen Hr' Ha Hb Hj Htot Hin Hin0).
 Qed.
